@@ -79,6 +79,8 @@ class Flow:
     def origin(self, x, depth=10, _seen=None):
         """Origin tree of an Operand or Place (see module doc of rules for node kinds)."""
         body = self.body
+        if x is None:
+            return ("unknown", "missing operand")
         if isinstance(x, Operand):
             if x.k == "const":
                 if x.fn is not None:
